@@ -111,9 +111,14 @@ BindAllT(d, t, L) ==
                         ELSE LET r == BindT(d.ch[i], t, acc) IN IF r.bad # "" THEN r ELSE B(i+1, r.L)
        IN B(1, L)
 
+ForceT(f) == f @@ <<>>
 RECURSIVE TypeOf(_, _, _, _, _)
 TypeOf(e, G, F, L, inDecl) ==
-  LET T(i)  == TypeOf(e.ch[i], G, F, L, inDecl)
+  LET \* children of plain operators are typed once (a TLC function lambda would be re-evaluated at every application; ForceT makes a table);
+      \* binders type their children under extended environments and do it themselves
+      Plain == e.id \notin Quant \cup {"DECLARATIVE", "REC_SHORT", "REC_FULL", "IMPERATIVE", "FUNCDEF", "ARGS", "ARG", "ITERATE", "ASSIGN", "TUPLEDECL", "ENUMDECL"}
+      TS == IF Plain THEN ForceT([i \in 1..Len(e.ch) |-> TypeOf(e.ch[i], G, F, L, inDecl)]) ELSE <<>>
+      T(i)  == IF Plain THEN TS[i] ELSE TypeOf(e.ch[i], G, F, L, inDecl)
       TL(x, LL) == TypeOf(x, G, F, LL, inDecl)
       N     == Len(e.ch)
       AnyBad == \E i \in 1..N : IsBad(T(i))
